@@ -223,6 +223,8 @@ def worker_main(a):
             rep.cur = idx
             rng = case_rng(a.seed, idx)
             try:
+                if hasattr(mod, 'case_reset'):
+                    mod.case_reset(idx)
                 mod.run_case(idx, rng, P, rep)
             except Exception as e:   # noqa: BLE001 - classify below
                 if from_repo(e, a.repo):
